@@ -369,12 +369,12 @@ def classify_wide(case):
 
 
 SUBCHECKS = [
-    Subcheck("match", match_cases, check_match, classify_match, quick=6000, thorough=300000,
+    Subcheck("match", match_cases, check_match, classify_match, quick=12000, thorough=300000,
              journal=False),
-    Subcheck("match_wide", wide_cases, check_wide, classify_wide, quick=1500, thorough=60000,
+    Subcheck("match_wide", wide_cases, check_wide, classify_wide, quick=3000, thorough=60000,
              journal=False),
-    Subcheck("unique", lambda: dedup_cases(False), check_unique, classify_dedup, quick=3000,
+    Subcheck("unique", lambda: dedup_cases(False), check_unique, classify_dedup, quick=6000,
              thorough=100000, journal=False),
-    Subcheck("rem_dup", lambda: dedup_cases(True), check_rem_dup, classify_dedup, quick=3000,
+    Subcheck("rem_dup", lambda: dedup_cases(True), check_rem_dup, classify_dedup, quick=6000,
              thorough=100000, journal=False),
 ]
